@@ -22,6 +22,28 @@ theorem fact_rollback :
     Generated.Ipam.memoryUpdatedAfterAllCreates = true ∧ Generated.Ipam.rollbackKeepsUndeletedInMemory = true ∧
     Generated.Ipam.storeBeforeMemory.lookup "AllocateInSubnetsAndIPRange" = some true := by decide
 
+/-- tie to the code: requested ranges are walked ONLY through `walkConfiguredIPRanges`, which clips every configured range
+    against the requested range at both ends, sorts the parts ascending by first address and hands them to
+    `walkIPRanges` (64-bit counter).  The model's `walkConfigured` takes the first two as parameters. -/
+theorem fact_walk_configured :
+    Generated.Ipam.walkConfClampsBothEnds = true ∧ Generated.Ipam.walkConfSortsParts = true ∧
+    Generated.Ipam.walkConfDelegatesToWalk = true ∧ Generated.Ipam.requestsWalkConfigured = true ∧
+    Generated.Ipam.walkOverflowSafe = true := by decide
+
+/-- "the i-th inside the i-th requested range" is about the REAL walk: `walkConfigured` (what the allocation, the lookup by
+    key and the node-subnet query iterate) visits exactly the requested addresses which lie in a configured range … -/
+theorem walkConfigured_mem (ps : List Pool) (rs : List Range) (ip : IP) :
+    ip ∈ walkConfigured ps rs ↔ (ip ∈ walk rs ∧ ∃ c ∈ confRanges ps, c.first ≤ ip ∧ ip ≤ c.last) :=
+  mem_walkConfigured
+
+/-- … in request order and ascending inside every requested range, whatever the order of the pools (pools sharing a
+    gateway keep their configuration order!) — for configurations whose ranges are pairwise disjoint it IS the enumeration
+    of the requested ranges filtered by "configured". -/
+theorem walkConfigured_eq_filter_enumerate (ps : List Pool) (rs : List Range) (hd : DisjointConf ps) :
+    walkConfigured ps rs =
+      rs.flatMap (fun r => (walk [r]).filter (fun ip => (confRanges ps).any (fun c => c.contains ip))) :=
+  walkConfigured_eq_filter ps rs hd
+
 /-- "bound with exactly k distinct IPs, the i-th inside the i-th requested range and all routable from the chosen node,
     reported in request order": for k ≥ 1 pairwise-disjoint range lists in which the key owns nothing yet, success
     means: k results; result[i] ∈ ranges[i], was free, lies in a pool listing the node subnet and had no stored object;
@@ -117,5 +139,22 @@ theorem multi_alloc_failure_counter :
     ((allocRangesFinish false sRes r [3, 9] res).1.store.get 3).isSome = true ∧
     (allocRangesFinish false sRes r [3, 9] res).1.alloc.get 3 = none ∧
     3 ∈ (allocRangesFinish false sRes r [3, 9] res).1.free := by decide
+
+def poolHi : Pool := { pool1 with ranges := [{ first := 6, last := 10 }] }
+def poolLo : Pool := { pool1 with ranges := [{ first := 2, last := 5 }] }
+
+/-- two pools sharing a gateway, the HIGHER range first in the configuration (the sort by gateway keeps that order): the
+    hypothesis of `walkConfigured_eq_filter_enumerate` holds and the walk of 4~7 is 4,5,6,7 -/
+example : sortPools [poolHi, poolLo] = [poolHi, poolLo] ∧ DisjointConf [poolHi, poolLo] ∧
+    walkConfigured [poolHi, poolLo] [{ first := 4, last := 7 }] = [4, 5, 6, 7] := by
+  refine ⟨by decide, ?_, by decide⟩
+  unfold DisjointConf; decide
+
+/-- COUNTER (the "optimised" walk: overlapping configured ranges in pool order, only the outermost ends clipped, no sort —
+    selected by `walkConfClampsBothEnds = walkConfSortsParts = false`): with the higher range listed first the walk of
+    4~7 leaves the requested range (…, 8, 9, 10, 2, 3, …), so a pod could be handed 8 for the request 4~7 -/
+theorem walk_unsorted_unclipped_counter :
+    8 ∈ walkConfiguredG false false [poolHi, poolLo] [{ first := 4, last := 7 }] ∧
+    8 ∉ walk [{ first := 4, last := 7 }] := by decide
 
 end Galaxy.Props.C08
